@@ -77,6 +77,9 @@ class Stock(Element):
             if isinstance(self._equation, (float, int)):
                 self._function_string = start_string + \
                     str(self._equation) + ") )"
+            elif self._elements.vector_size() > 0 and hasattr(self._equation, "_elements") and self._equation._elements.vector_size() > 0:
+                # an arrayed stock fed by an arrayed element: the members carry the equations, the stock itself has no single value
+                self._function_string = start_string + "0.0) )"
             else:
                 self._function_string = start_string + \
                     self._equation.term("t-model.dt") + ") )"
